@@ -81,6 +81,11 @@ type scenarioB struct {
 	ReopenIn time.Duration
 	Close2In time.Duration
 	DialLat  []int // per dial attempt: latency in ms, or -1 refused
+	// NotifyDelay: how long the application's state-change handler takes (0 = returns at once); with a
+	// slow handler the close timeout is short, so Close can return (reporting the timeout) while
+	// notifications are still queued — they must still all arrive
+	NotifyDelay time.Duration
+	CloseTO     time.Duration
 }
 
 type gen struct {
@@ -128,6 +133,8 @@ type harnessB struct {
 
 	closeCalled  bool
 	closeStarted bool
+	closeTimedOut bool // Close reported the close timeout: the handlers had not drained when it returned
+	inHandler    int
 	peerDials    int
 	closeCallAt  time.Duration
 	closeRet     bool
@@ -228,6 +235,12 @@ func genScenarioB(t *core.Tape, faulty bool) scenarioB {
 	sc.Reopen = t.Choose("scn", 2) == 1
 	sc.ReopenIn = time.Duration(t.Choose("scn", 30)) * 10 * time.Millisecond
 	sc.Close2In = time.Duration(50+t.Choose("scn", 200)) * 10 * time.Millisecond
+	sc.CloseTO = 2 * time.Second
+	if t.Bias("scn", 1, 4) {
+		sc.NotifyDelay = []time.Duration{30 * time.Millisecond, 150 * time.Millisecond, 400 * time.Millisecond}[t.Choose("scn", 3)]
+		sc.CloseTO = []time.Duration{2 * time.Second, 200 * time.Millisecond}[t.Choose("scn", 2)]
+		sc.Reopen = false
+	}
 	for i := 0; i < 12; i++ {
 		l := t.Choose("scn", 4) * 5
 		if t.Bias("scn", 1, 8) {
@@ -247,7 +260,7 @@ func BuildE2E(faulty bool) core.BuildFunc {
 		sc := h.sc
 		wt := sc.WriteTO
 		h.r = rig.New(w, rig.Opts{Active: sc.Active, Equip: sc.Equip, T3: 2 * time.Second, T6: sc.T6, T7: sc.T7, T5: time.Second,
-			BackoffInit: sc.Backoff, BackoffMult: 2, CloseTimeout: 2 * time.Second, WriteTimeout: &wt, NoStateHandler: true, ConnectTimeout: time.Second})
+			BackoffInit: sc.Backoff, BackoffMult: 2, CloseTimeout: sc.CloseTO, WriteTimeout: &wt, NoStateHandler: true, ConnectTimeout: time.Second})
 		r := h.r
 		r.P.AutoSelectRsp = -1
 		r.P.AutoLinktest = true
@@ -260,8 +273,13 @@ func BuildE2E(faulty bool) core.BuildFunc {
 			h.tick++
 			h.notes = append(h.notes, note{prev, next, h.tick, w.Now()})
 			w.Logf("notify %v->%v", prev, next)
-			if h.closeRet {
+			if h.closeRet && !h.closeTimedOut {
 				w.Fail("AFTER_CLOSE", "state-change notification %v->%v delivered after Close returned and before the next Open", prev, next)
+			}
+			if sc.NotifyDelay > 0 {
+				h.inHandler++
+				core.Sleep(sc.NotifyDelay)
+				h.inHandler--
 			}
 		})
 		r.N.DialPlan = func(attempt int, address string) simnet.DialOutcome {
@@ -302,7 +320,7 @@ func BuildE2E(faulty bool) core.BuildFunc {
 		return &core.Scenario{
 			Desc:    h.describe(),
 			Horizon: 90 * time.Second,
-			Done:    func() bool { return h.finished && h.sendersDone == sc.Senders && w.Idle() },
+			Done:    func() bool { return h.finished && h.sendersDone == sc.Senders && h.inHandler == 0 && w.Idle() },
 			Final:   h.final,
 			Cleanup: func() { h.stop = true; r.Close() },
 			Nontrivial: func() bool {
@@ -320,7 +338,7 @@ func (h *harnessB) describe() map[string]any {
 	}
 
 	return map[string]any{"engine": "e2e", "active": sc.Active, "equip": sc.Equip, "T6": sc.T6.String(), "T7": sc.T7.String(), "backoff": sc.Backoff.String(),
-		"writeTimeout": sc.WriteTO.String(), "generations": plans, "senders": sc.Senders, "closeAt": sc.CloseAt.String(), "closeOnConnect": sc.CloseOnConnect, "closeOnOff": sc.CloseOnOff.String(), "reopen": sc.Reopen, "dial": sc.DialLat}
+		"writeTimeout": sc.WriteTO.String(), "generations": plans, "senders": sc.Senders, "closeAt": sc.CloseAt.String(), "notifyDelay": sc.NotifyDelay.String(), "closeTimeout": sc.CloseTO.String(), "closeOnConnect": sc.CloseOnConnect, "closeOnOff": sc.CloseOnOff.String(), "reopen": sc.Reopen, "dial": sc.DialLat}
 }
 
 func (h *harnessB) peerDialLoop() {
@@ -615,6 +633,12 @@ func (h *harnessB) appClose(first bool) {
 			w.Logf("app close call")
 			w.Fault("app-close")
 			err := r.C.Close()
+			if errors.Is(err, hsms.ErrCloseTimeout) {
+				// (a slow handler, or a sender the scheduler withheld inside the library: the bounded join
+				// gave up — whether that is justified is C10's subject)
+				h.closeTimedOut = true
+				w.Probe("close_returned_before_handlers_drained")
+			}
 			if errors.Is(err, hsms.ErrNotOpen) {
 				// Close won the race against the very first Open: nothing was open, nothing is closed
 				h.closeCalled = false
@@ -635,7 +659,7 @@ func (h *harnessB) appClose(first bool) {
 
 			return
 		}
-		if n := len(h.notes); n > 0 && h.coalesce == 0 && h.notes[n-1].next != hsms.NotConnectedState {
+		if n := len(h.notes); n > 0 && h.coalesce == 0 && !h.closeTimedOut && h.notes[n-1].next != hsms.NotConnectedState {
 			w.Fail("FINAL", "Close returned (handlers drained): the last notification is %v->%v but State() is NotConnected", h.notes[n-1].prev, h.notes[n-1].next)
 
 			return
@@ -803,7 +827,7 @@ func (h *harnessB) final(reason string) {
 		}
 	}
 	if n := len(h.notes); n > 0 {
-		if h.notes[n-1].tick > h.closeRetTick {
+		if h.notes[n-1].tick > h.closeRetTick && !h.closeTimedOut {
 			w.Fail("AFTER_CLOSE", "a state-change notification %v->%v was delivered after the final Close returned", h.notes[n-1].prev, h.notes[n-1].next)
 
 			return
